@@ -121,6 +121,45 @@ def alloc_to_apply(ctx, prog, lm, rid):
     return n_fa
 
 
+def gate_sections(ctx, prog, lm, rid):
+    """C09.R6: slot lookup, log append and in-memory apply of a mutator are inside ONE write-gate critical section (identity of the acquisition, as in manifest_rmw).
+    Returns the number of append sites examined."""
+    GATE = 'HnswBackend.write_gate'
+    n_app = 0
+    for name in MUTATORS:
+        f = ctx.body(rid, name)
+        if f is None:
+            continue
+        sites = []
+        for bb, a in sorted(lm.body_acqs.get(f.id, {}).items()):
+            if a.cls == 'HnswBackend.doc_store':
+                sites.append(('doc_store.%s()' % ('read' if a.mode == 'R' else 'write'), bb, a.call.loc))
+        apps = [c for c in f.calls if c.is_('WalWriter::append', 'WalWriter::append_batch')]
+        if not apps:
+            ctx.missing(rid, '%s: WalWriter::append[_batch] call' % name)
+            continue
+        if len([s for s in sites if s[0] == 'doc_store.write()']) < 1 or len([s for s in sites if s[0] == 'doc_store.read()']) < 1:
+            ctx.missing(rid, '%s: slot lookup (doc_store.read) and apply (doc_store.write) in the body of the mutator' % name)
+            continue
+        for k, c in enumerate(apps):
+            n_app += 1
+            g = lm.held_at(f, c.bb, must=True).get(GATE)
+            ctx.inst(rid, f.short, 'write gate held at %s #%d' % (flow.short(c.callee), k), g is not None and not g[1],
+                     '%s at %s: write gate %s' % (flow.short(c.callee), c.loc, ('held since ' + g[2]) if g is not None else
+                                                  'NOT held — another writer of the same id can append and apply between this append and this writer\'s apply'))
+            sites.append((flow.short(c.callee), c.bb, c.loc))
+        acq = {}
+        for what, bb, loc in sites:
+            g = lm.held_at(f, bb, must=True).get(GATE)
+            acq.setdefault(g[2] if g is not None and not g[1] else 'not held', []).append('%s at %s' % (what, loc.rsplit('/', 1)[-1]))
+        ok = len(acq) == 1 and 'not held' not in acq
+        ctx.inst(rid, f.short, 'slot lookup, log append and apply share one acquisition of the write gate', ok,
+                 '; '.join(('gate NOT held: %s' % ', '.join(v)) if k_ == 'not held' else 'gate acquired at %s: %s' % (k_.rsplit('/', 1)[-1], ', '.join(v)) for k_, v in sorted(acq.items())) +
+                 ('' if ok else ' — the gate is released between the log append and the apply (or between the lookup and the apply): log order and apply order of two '
+                                'writers of the same id can differ'))
+    return n_app
+
+
 def run(ctx, prog):
     ctx.not_decided = ['the interleavings themselves; only the lock discipline that makes them safe']
     lm = LockModel(prog)
